@@ -68,6 +68,34 @@ add("C17", "4/C17", E1,
     "trip, on all arrays of length 1..5/6 over small lattices and structured arrays to 50, n=1..16.",
     "np.linspace/np.pad trusted; extend_linspace defaults only defined for len(a) > n")
 
+add("C11", "4/C11", E1,
+    "Every series on G(7,k) x every pair of absolute bounds on the half-integer lattice (below, inside, on, above the "
+    "range) x ratio bounds in all flag combinations x three entry points (function, Weaver unreshaped, Weaver recreated), "
+    "every (start, stop) of slice_by_value incl. omitted bounds and the first sample, every index (start, stop, step).",
+    "ratio bounds on dyadic grids only; rejections belong to C20")
+add("C12", "4/C12", E1,
+    "Every series on G(7,k) (3 images, int/float, list/array) x r=1..12 x all factor pairs ab<=12 through process.repeat "
+    "and Weaver.repeat: tiling, spacing inside each copy, junction step, first copy, monotonicity, composition, reference.",
+    "exact on dyadic grids, 1e-9 on the non-dyadic image")
+add("C13", "4/C13", E1,
+    "Every series on G(8,k), k=4..5/6 x value lattice + affine data x 4 methods x every sorted new grid of <=2/4 half-lattice "
+    "points from below to beyond the range; Weaver.interpolate(n), n=2..12, and explicit grids sharing both/one/no end point.",
+    "'linear' claimed inside the range only; scipy splines trusted to rounding")
+add("C14", "4/C14", E1,
+    "Every series on G(7,k) with abscissa offsets/scales x V+-^k x 6 trend callables x normalised or not x trend pairs "
+    "(additivity) x shifts x scales x normalise ranges through process.* and the Weaver; bit-equal to the independently "
+    "evaluated IEEE expression.",
+    "pure scalar trend callables; normalise to 1e-12")
+add("C15", "4/C15", E1,
+    "Every signal in V+-^k (k<=5/6, non-zero) x 12 snr forms (dB, linear, per-sample list/array, explicit std) x 2 entry "
+    "points with the generator owned by a seam that records loc/scale/size; plus the real generator under 3 seeds on "
+    "2*10^5 samples (reproducibility, empirical SNR within 3 %).",
+    "the statistical sentence is a finite 3-seed confirmation, not a proof")
+add("C16", "4/C16", E1,
+    "Series of 5..6/7 points on 3 grids x 2 scales x {0,1,3}^k + ramps/affine x 8 smoothing values x 3 entry points: "
+    "smoothing condition within 0.1 %, identity for s=0 and affine data, default s = len*var, interpolating to_function.",
+    "FITPACK trusted; executions with FITPACK warnings discarded (counted)")
+
 ALL = ["C%02d" % i for i in range(1, 21)]
 NOT_BUILT = "check not built yet in this session (design in DESIGN.md section 4); will be claimed once its harness exists"
 
